@@ -324,6 +324,7 @@ func hsAddFault(r *Rng, c *HashCase, kind, p string, step int) {
 // ---------------------------------------------------------------- execution
 
 type hashObs struct {
+	picks  []int
 	digest string
 	err    error
 	out    RunOutcome
@@ -440,6 +441,7 @@ func (w *World) hashOnce(files []string, sched Sched, inv int, faults []HFault, 
 	})
 	uninstallHooks()
 	o.trace = s.Trace
+	o.picks = ch.Rec
 	o.steps = s.Steps
 	o.fired = append(o.fired, h.fired...)
 	return o
@@ -590,6 +592,7 @@ func (hashsched) Exec(w *World, cc any, prop string) *Result {
 		}
 		res.event("hash n=%d steps=%d digest=%s err=%v out=%s", len(files), o.steps, class(o.digest), o.err != nil, outcomeStr(o.out))
 		res.event("trace %s", strings.Join(o.trace, " "))
+		res.Picks = append(res.Picks, o.picks)
 		if len(files) >= 2 {
 			res.distinctIf(prop == "C04", "trace:"+traceHash(o.trace))
 			if completionDiffers(o.trace, files) {
@@ -1138,4 +1141,28 @@ func (hashsched) RaceExec(w *World, c *HashCase, prop string, reps int) *Result 
 	res.distinct(fmt.Sprintf("shape:L%d:bad%d:faults%d", len(list), bad, len(faults)))
 	res.event("race-mode list=%d bad=%d digests=%d", len(list), bad, len(digests))
 	return res
+}
+
+// PinSchedules makes the schedules of a (structurally minimised) case explicit: the base
+// run's picks become c.Sched, the i-th variant's picks its own schedule. Only shapes in which
+// every schedule is used by exactly one hash call are pinned (no edits, no unlink enumeration).
+func (hashsched) PinSchedules(cc any, r *Result) (any, []*Sched) {
+	c := cloneJSON(*cc.(*HashCase))
+	hasUnlink := false
+	for _, f := range c.Faults {
+		if f.Kind == "unlink" {
+			hasUnlink = true
+		}
+	}
+	if len(c.Edits) > 0 || hasUnlink || len(r.Picks) < 1+len(c.Variants) {
+		return nil, nil
+	}
+	var ptrs []*Sched
+	c.Sched = Sched{Policy: "picks", Picks: append([]int{}, r.Picks[0]...)}
+	ptrs = append(ptrs, &c.Sched)
+	for i := range c.Variants {
+		c.Variants[i].Sched = Sched{Policy: "picks", Picks: append([]int{}, r.Picks[1+i]...)}
+		ptrs = append(ptrs, &c.Variants[i].Sched)
+	}
+	return &c, ptrs
 }
